@@ -34,7 +34,7 @@ PROPERTY = "C19"
 LEVEL = "fault_enumeration"
 SWEEP = True
 ABSTRACT_WIDTH = 3
-N_RUNS = {"quick": 40000, "thorough": 64000}
+N_RUNS = {"quick": 40000, "thorough": 48000}
 RULE = ("each run draws 1-3 plots, the options of the chain (MakeFilename variants: plain, dirname, "
         "formatted dirname, prefix, suffix, stacked prefix and suffix, prefix from the context, a "
         "second non-overwriting and a second overwriting MakeFilename; each Write plain / "
